@@ -146,7 +146,7 @@ Definition entry_ok (w : world) (c : path) (en : entry) : Prop :=
 
 Record good (w : world) (st : state) : Prop := mkgood {
   g_coh : forall c en, s_cache st c = Some en -> entry_ok w c en;
-  g_load : forall c, utf8_file w c = true ->
+  g_load : forall c,
       (s_cache st c = None -> count (is_ok_load c) (s_log st) = O) /\
       (count (is_ok_load c) (s_log st) <= 1)%nat;
   g_eval : forall c,
@@ -198,7 +198,7 @@ Lemma good_same_cache : forall w st st',
 Proof.
   intros w st st' Hc Hl [g1 g2 g3]. constructor; intros.
   - apply g1. rewrite <- Hc. auto.
-  - rewrite Hl, Hc. auto.
+  - rewrite Hl, Hc. apply g2.
   - unfold evald. rewrite Hl, Hc. apply g3.
 Qed.
 
@@ -208,7 +208,7 @@ Proof.
   - apply g1. auto.
   - cbn [s_log s_cache add_log count].
     assert (is_ok_load c ev = false) as E by (destruct ev as [| ? [|] | | |]; cbn in *; tauto).
-    rewrite E. apply g2. auto.
+    rewrite E. apply g2.
   - unfold evald. cbn [s_log s_cache add_log count no_start_after_done].
     assert (is_done c ev = false) as E by (destruct ev as [| ? [|] | | |]; cbn in *; tauto).
     assert (is_start c ev = false) as E2 by (destruct ev as [| ? [|] | | |]; cbn in *; tauto).
@@ -230,7 +230,7 @@ Proof.
   - cbn [s_cache set_entry] in H. destruct (path_eqb c c0) eqn:E.
     + apply path_eqb_eq in E. subst. inversion H; subst. auto.
     + apply g1. auto.
-  - cbn [s_cache s_log set_entry]. destruct (g2 c0 H) as [a b]. split; auto.
+  - cbn [s_cache s_log set_entry]. destruct (g2 c0) as [a b]. split; auto.
     destruct (path_eqb c c0) eqn:E; auto. discriminate.
   - cbn [s_log set_entry]. destruct (g3 c0) as [a [b d]]. repeat split; auto.
     intro Hn. apply a. unfold evald in *. cbn [s_cache set_entry] in Hn.
@@ -291,7 +291,7 @@ Proof.
       + cbn [s_cache set_entry add_log] in H0. destruct (path_eqb c c0) eqn:E.
         * apply path_eqb_eq in E. subst c0. inversion H0; subst en0. unfold entry_ok. rewrite Hcid. auto.
         * apply g1. auto.
-      + cbn [s_cache s_log set_entry add_log count is_ok_load]. destruct (g2 c0 H0) as [a b].
+      + cbn [s_cache s_log set_entry add_log count is_ok_load]. destruct (g2 c0) as [a b].
         rewrite (path_eqb_sym c0 c). destruct (path_eqb c c0) eqn:E.
         * apply path_eqb_eq in E. subst c0. cbn [s_log bump] in *. rewrite (a EC). split; [discriminate|lia].
         * cbn [s_cache s_log bump] in *. auto.
@@ -308,23 +308,8 @@ Proof.
         * apply path_eqb_eq in E. subst c0. congruence.
         * exists en0. auto.
       + cbn. tauto. }
-  destruct bin.
-  { inversion H; subst. destruct (K (new_bytes cid)) as [K1 K2]; cbn; auto; try discriminate.
-    split; [|split]; auto. intros en9 E. inversion E; subst. cbn. rewrite path_eqb_refl. auto. }
-  destruct (utf8 w cid) eqn:EU.
-  { inversion H; subst. destruct (K (new_string cid)) as [K1 K2]; cbn; auto.
-    split; [|split]; auto. intros en9 E. inversion E; subst. cbn. rewrite path_eqb_refl. auto. }
-  (* loaded, not UTF-8: nothing is inserted *)
-  inversion H; subst. split; [|split].
-  - destruct G as [g1 g2 g3]. constructor; intros.
-    + apply g1. auto.
-    + cbn [s_cache s_log add_log count is_ok_load]. destruct (g2 c0 H0) as [a b].
-      rewrite (path_eqb_sym c0 c). destruct (path_eqb c c0) eqn:E; cbn [s_log s_cache bump] in *; auto.
-      apply path_eqb_eq in E. subst c0. unfold utf8_file in H0. rewrite EF in H0. congruence.
-    + unfold evald. cbn [s_cache s_log add_log count is_done no_start_after_done is_start bump].
-      destruct (g3 c0) as [a [b d]]. repeat split; auto. discriminate.
-  - apply ext_same; auto.
-  - intros en9 E. discriminate.
+  inversion H; subst. destruct (K (new_bytes cid)) as [K1 K2]; cbn; auto; try discriminate.
+  split; [|split]; auto. intros en9 E. inversion E; subst. cbn. rewrite path_eqb_refl. auto.
 Qed.
 
 Ltac pe c c0 E :=
@@ -439,7 +424,7 @@ Proof.
     - unfold evald. rewrite HC. cbn. auto. }
   destruct G2 as [g1 g2 g3]. constructor; intros.
   - apply g1. auto.
-  - cbn [s_log s_cache add_log count is_ok_load]. apply g2. auto.
+  - cbn [s_log s_cache add_log count is_ok_load]. apply g2.
   - unfold evald. cbn [s_log s_cache add_log count is_done no_start_after_done is_start].
     destruct (g3 c0) as [a [b d]]. split; [|split; [|split]]; auto.
     intro HS. rewrite path_eqb_sym in HS. apply path_eqb_eq in HS. subst c0.
@@ -494,7 +479,7 @@ Proof.
       * cbn [s_cache set_entry add_log] in H. pe c c0 E.
         -- inversion H; subst en. unfold entry_ok. cbn. auto.
         -- apply g1; auto.
-      * cbn [s_cache s_log set_entry add_log count is_ok_load]. destruct (g2 c0 H) as [a b]. split; auto.
+      * cbn [s_cache s_log set_entry add_log count is_ok_load]. destruct (g2 c0) as [a b]. split; auto.
         pe c c0 E; auto. discriminate.
       * unfold evald. cbn [s_cache s_log set_entry add_log count is_done no_start_after_done is_start].
         destruct (g3 c0) as [a [b d]]. rewrite (path_eqb_sym c0 c). pe c c0 E.
@@ -640,10 +625,9 @@ Qed.
 
 (* ------------------------------------------------------------------ history theorems *)
 Lemma load_once : forall w fuel h c,
-  utf8_file w c = true ->
   (count (is_ok_load c) (s_log (snd (run_hist w fuel h init))) <= 1)%nat.
 Proof.
-  intros. destruct (reach_good w fuel h) as [G _]. apply (g_load _ _ G c H).
+  intros. destruct (reach_good w fuel h) as [G _]. apply (g_load _ _ G c).
 Qed.
 
 Lemma eval_once : forall w fuel h c,
@@ -720,7 +704,7 @@ Proof.
     + rewrite (b eq_refl). reflexivity.
     + destruct (utf8 w (e_cid en)); reflexivity.
   - unfold do_load. rewrite HF. destruct (fs_file (w_fs w) c) as [cid|]; [|reflexivity].
-    destruct (utf8 w cid) eqn:EU; reflexivity.
+    unfold get_string. cbn [e_string new_bytes e_cid]. destruct (utf8 w cid) eqn:EU; reflexivity.
 Qed.
 
 Lemma import_bin_closed : forall w c st,
@@ -838,19 +822,19 @@ Proof.
   - vm_compute. discriminate.
 Qed.
 
-(** u.bin is not UTF-8: importstr twice reads it twice *)
+(** u.bin is not UTF-8: since c43636f importstr twice (then importbin, then import) reads it once *)
 Definition wB : world :=
   {| w_fs := [([0], NDir); ([0; 4], NFile 0)];
      w_cwd := [0]; w_libs := [];
      w_blobs := [(0, {| bl_utf8 := false; bl_chars := 0; bl_bytes := 2; bl_body := None |})];
      w_faults := [] |}.
 
-Lemma load_once_refuted :
-  exists w fuel h c,
-    count (is_ok_load c) (s_log (snd (run_hist w fuel h init))) = 2%nat.
-Proof.
-  exists wB, 50%nat, [mk_op KStr [CN 4] SV; mk_op KStr [CN 4] SV], [0; 4]. vm_compute. reflexivity.
-Qed.
+Example nonutf8_is_read_once :
+  let r := run_hist wB 50 [mk_op KStr [CN 4] SV; mk_op KStr [CN 4] SV; mk_op KBin [CN 4] SV;
+                           mk_op KImp [CN 4] SV] init in
+  fst r = [VErr EUtf8; VErr EUtf8; VBytes 0; VErr EUtf8] /\
+  count (is_ok_load [0; 4]) (s_log (snd r)) = 1%nat.
+Proof. vm_compute. repeat split. Qed.
 
 (** a -> b -> c -> a strictly; d (name 7) is unrelated; t.txt in lib *)
 Definition wC : world :=
@@ -871,7 +855,6 @@ Proof. vm_compute. reflexivity. Qed.
 
 (** non-vacuity of the hypotheses used by the property theorems *)
 Example nonvac_load_once :
-  utf8_file wC [5; 6] = true /\
   count (is_ok_load [5; 6]) (s_log (snd (run_hist wC 100
      [mk_op KImp [CN 7] SV; mk_op KStr [CN 6] SV; mk_op KBin [CN 8] SV] init))) = 1%nat.
 Proof. vm_compute. repeat split. Qed.
